@@ -119,6 +119,8 @@ structure SpSt where
   firstSeen : List (Name × Nat × Time) := []
   lastPit : Nat := 0
   lastCs : Nat := 0
+  /-- several forwarding threads (only used to name the class of a violation) -/
+  multi : Bool := false
 
 /-- slack for "possibly still there": one update period plus the 1 µs offsets of the harness -/
 def slack : Nat := tickInterval + ms
@@ -371,7 +373,12 @@ def onData (sp : SpSt) (f : FaceId) (d : Data) (tk : STok) (obs : List Obs) (pit
           let need := (sp.pends.filter fun q => certMatch q && q.face == p.face).length
           let have_ := (dsends.filter (·.face == p.face)).length
           if have_ < need then
-            some (fail "C01-pending-face-not-served" (if specLocalhost d.name then "localhost" else "data")
+            some (fail "C01-pending-face-not-served"
+              (if sp.multi && (match tk with | .label _ => false | _ => true) then
+                 (if p.key.name.isEmpty then "multithread-dispatch-empty-prefix"
+                  else if nonLocal sp.faces f && p.key.name != d.name then "multithread-dispatch-nonlocal-prefix"
+                  else "multithread-dispatch")
+               else if specLocalhost d.name then "localhost" else "data")
               s!"face {p.face} holds {need} pending Interest(s) satisfied by Data {d.name.toText} but received {have_} copies")
           else none) ++
       (if inboundMaybe then [] else
